@@ -201,6 +201,10 @@ func (self *linkedPairs) BuildIndex() {
 	}
 	for i := 0; i < self.size; i++ {
 		p := self.At(i)
+		/* a Pair built as a literal (Pair{Key: k, Value: v}) carries no hash */
+		if p.hash == 0 && p.Value.Exists() {
+			p.hash = caching.StrHash(p.Key)
+		}
 		/* the first occurrence of a duplicated key wins, as for a linear search */
 		if _, ok := self.index[p.hash]; !ok {
 			self.index[p.hash] = i
